@@ -6,7 +6,8 @@ known to them by name): if/elif chains replaced by lookup tables (module level o
 enum member), data-driven loops over (label, set) pairs, hoisted common subexpressions, guard clauses with `continue`,
 De-Morganed / inverted conditions, `while True` + break rewritten as `for .. in iter(callable, sentinel)` or as a
 read-ahead loop, loops over a tuple of names, conditional expressions, nested helper functions, wrappers in the
-pretty-function table."""
+pretty-function table; comprehension / generator pipelines rewritten as explicit loops (append under a `not in` guard,
+seen-set) and back, tuple targets vs subscripts, map + lambda; stream reads rewritten as slices of the data and back."""
 
 from selftest.corpus import M, T
 
@@ -244,3 +245,39 @@ T("C03", "twin-gargle-read-ahead", F, "", "", edits=[
     (F, "        if (start, end) != (0, 0):\n            value = f\"0x{start:x}-0x{end:x}\"\n            addresses.append(value)\n    return addresses",
      "        if (start, end) != (0, 0):\n            addresses.append(f\"0x{start:x}-0x{end:x}\")\n    return addresses"),
 ])
+
+# ------------------------------------------------------------------------------------------------ R8 domains / uris: which member of each pair, de-duplicated by what
+# (comprehension / generator pipeline <-> explicit loop, seen-set, subscripts instead of tuple targets, map + itemgetter,
+# dict comprehension: the same selection; the other member, or values of a dict keyed by the other member: not)
+_URIS = "        return list(dict.fromkeys(uri for (_domain, uri) in self.domain_uri_pairs))"
+_DOMS = "        return list(dict.fromkeys(domain for (domain, _uri) in self.domain_uri_pairs))"
+T("C03", "twin-uris-append-loop", F, _URIS, "        found = []\n        pairs = self.domain_uri_pairs\n        for pair in pairs:\n            u = pair[1]\n            if u in found:\n                continue\n            found.append(u)\n        return found")
+T("C03", "twin-domains-seen-set", F, _DOMS, "        out, seen = [], set()\n        for d, _u in self.domain_uri_pairs:\n            if d not in seen:\n                seen.add(d)\n                out.append(d)\n        return out")
+T("C03", "twin-domains-dict-of-pairs", F, _DOMS, "        return list(dict(self.domain_uri_pairs))")
+T("C03", "twin-uris-listcomp-subscript", F, _URIS, "        uris = [p[-1] for p in self.domain_uri_pairs]\n        return list(dict.fromkeys(uris).keys())")
+T("C03", "twin-uris-dictcomp", F, _URIS, "        return list({uri: None for _domain, uri in self.domain_uri_pairs})")
+T("C03", "twin-uris-map-lambda", F, _URIS, "        return list(dict.fromkeys(map(lambda pair: pair[1], self.domain_uri_pairs)))")
+T("C03", "twin-uris-empty-guard", F, _URIS, "        pairs = self.domain_uri_pairs\n        if not pairs:\n            return []\n        return list(dict.fromkeys(uri for (_domain, uri) in pairs))")
+T("C03", "twin-uris-reshaped-beyond-recognition", F, _URIS, "        return list(dict.fromkeys(list(zip(*self.domain_uri_pairs))[1])) if self.domain_uri_pairs else []")
+T("C03", "twin-pairs-listcomp", F, "        return list(grouper(null_terminated_str(domains).split(\",\"), 2))", "        return [pair for pair in grouper(null_terminated_str(domains).split(\",\"), 2)]")
+M("C03", "uris-loop-appends-domain", F, _URIS, "        uris = []\n        for domain, uri in self.domain_uri_pairs:\n            if domain not in uris:\n                uris.append(domain)\n        return uris", "C03.R8")
+M("C03", "uris-loop-deduplicated-by-domain", F, _URIS, "        uris, seen = [], set()\n        for domain, uri in self.domain_uri_pairs:\n            if domain in seen:\n                continue\n            seen.add(domain)\n            uris.append(uri)\n        return uris", "C03.R8")
+M("C03", "uris-dictcomp-values", F, _URIS, "        return list({d: u for d, u in self.domain_uri_pairs}.values())", "C03.R8")
+M("C03", "domains-subscript-second", F, _DOMS, "        return list(dict.fromkeys(p[1] for p in self.domain_uri_pairs))", "C03.R8")
+
+# ------------------------------------------------------------------------------------------------ R10 pivot frame header: the window (offset 2, length L - 4) of the data
+# (stream reads <-> slices, the subtraction done before / after, read-then-chop, an explicit empty-header exit: the same
+# window; another offset, another length, another prefix: not)
+_PF = "    p = io.BytesIO(data)\n    length = u16be(p.read(2))\n    return p.read(length - 4)\n"
+T("C03", "twin-frame-slices", F, _PF, "    length = u16be(data[:2])\n    return data[2 : 2 + length - 4]\n")
+T("C03", "twin-frame-slice-of-tail", F, _PF, "    size = int.from_bytes(data[0:2], \"big\") - 4\n    return data[2:][:size]\n")
+T("C03", "twin-frame-read-then-chop", F, _PF, "    p = io.BytesIO(data)\n    length = u16be(p.read(2))\n    return p.read(length)[:-4]\n")
+T("C03", "twin-frame-memoryview", F, _PF, "    view = memoryview(data)\n    length = u16be(view[:2])\n    return bytes(view[2 : length - 2])\n")
+T("C03", "twin-frame-empty-header-exit", F, _PF, "    p = io.BytesIO(data)\n    length = u16be(p.read(2))\n    if length <= 4:\n        return b\"\"\n    return p.read(length - 4)\n")
+T("C03", "twin-frame-header-local", F, _PF, "    p = io.BytesIO(data)\n    prefix = p.read(2)\n    n = int.from_bytes(prefix, byteorder=\"big\", signed=False) - 4\n    header = p.read(n)\n    return header\n")
+M("C03", "frame-placeholder-kept", F, _PF, "    p = io.BytesIO(data)\n    length = u16be(p.read(2))\n    return p.read(length)\n", "C03.R10")
+M("C03", "frame-slice-from-prefix", F, _PF, "    length = u16be(data[:2])\n    return data[0 : length - 4]\n", "C03.R10")
+M("C03", "frame-read-then-chop-two", F, _PF, "    p = io.BytesIO(data)\n    length = u16be(p.read(2))\n    return p.read(length - 2)[:-4]\n", "C03.R10")
+M("C03", "frame-prefix-little-endian", F, _PF, "    p = io.BytesIO(data)\n    length = int.from_bytes(p.read(2), \"little\")\n    return p.read(length - 4)\n", "C03.R10")
+M("C03", "frame-prefix-four-bytes", F, _PF, "    p = io.BytesIO(data)\n    length = u32be(p.read(4))\n    return p.read(length - 4)\n", "C03.R10")
+M("C03", "frame-empty-exit-too-wide", F, _PF, "    p = io.BytesIO(data)\n    length = u16be(p.read(2))\n    if length < 8:\n        return b\"\"\n    return p.read(length - 4)\n", "C03.R10")
